@@ -307,8 +307,11 @@ theorem refreshNonConfirmedComposition_geo (hrc : ComposeGeoSpec env.recompose) 
   · exact update_geo hrc h1.toGeoPre
   · exact h
 
-theorem setOptionRaw_geo {c : Ctx} (h : GeoInv c) (n : String) (v : Bool) : GeoInv (c.setOptionRaw n v) :=
-  h.of_comp rfl
+theorem setOptionRaw_geo {c : Ctx} (h : GeoInv c) (n : String) (v : Bool) : GeoInv (c.setOptionRaw n v) := by
+  refine ⟨⟨by rw [Ctx.setOptionRaw_segs]; exact h.geo⟩, ?_⟩
+  unfold Bounded
+  rw [Ctx.setOptionRaw_segs, Ctx.setOptionRaw_cinput]
+  exact h.bounded
 
 theorem setOption_geo (hrc : ComposeGeoSpec env.recompose) {c : Ctx} (h : GeoInv c) (n : String) (v : Bool) :
     GeoInv (setOption env c n v) := by
